@@ -10,6 +10,9 @@
 // (multi.go: commitTxs verifies every input in a goroutine of its own; the verdict must not depend on the schedule).
 // Blocks that reach the active chain through a re-organisation (stored on a side branch, connected by MoveToBlock /
 // ParseTillBlock) are judged by R against G only — see reorg.go.
+// Configurations (epOpts): chain.TrustedTxChecker installed with the harness as an honest pool (pool.go), compressed
+// UTXO records + wide transactions (compr.go; those episodes run in a child process, child.go). Multi-step histories
+// with several re-organisations: walk.go (R against G's per-node coin maps after every submission).
 //   R accepts ∧ G refuses, R refuses but tip/dump changed, R accepts with a dump ≠ G   → property failure (PropFail)
 //   R ≠ M (verdict, dump, sigop cost), S ≠ G                                             → broken tie (TieFail)
 package main
@@ -509,7 +512,9 @@ func main() {
 	r.Assume = []string{
 		"script verification (lib/script, property C01) is an oracle Bool per input in the Lean model and spec; the harness computes it with script.VerifyTxScript against the coin the sequential semantics names",
 		"wire decoding (C09), header/merkle/commitment rules (C05) and the record serialisation (C10) are outside this check: candidates are well-formed blocks built by chainkit",
-		"bl.Trusted is false for every candidate (btc.NewBlock's default; the trusted path of commitTxs / PostCheckBlock and chain.TrustedTxChecker are not exercised: asserted nil at start) and utxo.UTXO_PURGE_UNSPENDABLE is false (asserted at start)",
+		"bl.Trusted is false for every candidate (btc.NewBlock's default; the trusted-block path of commitTxs / PostCheckBlock is not exercised) and utxo.UTXO_PURGE_UNSPENDABLE is false (asserted at start)",
+		"chain.TrustedTxChecker, in the episodes that install it, is an HONEST pool played by the harness: it vouches only for transactions none of whose inputs (that the sequential semantics finds) fails script verification under the block's flags (hypothesis hhonest of connect_sound_pool_hook)",
+		"compressed-record episodes: btc.CompressAmount / script compression are lossless on what a chain can contain (property C10); injected out-of-supply amounts are kept out of them",
 		"hash-prefix injectivity: no two different txids among the block's transactions and the records of the UTXO set share their first 8 bytes (a 2^32-work birthday collision on SHA-256d; UnspentDB.commit would file the new record over the old one — observed by keyClashProbe at the record layer, evidence field hash_prefix_injectivity_probe; Lean: connect_sound_needs_prefix_injectivity); only INPUTS naming a colliding txid are generated",
 		"reference semantics of Bitcoin written from memory of Bitcoin Core (DESIGN §3.7)",
 	}
@@ -547,7 +552,7 @@ func main() {
 	}
 	restoreStdout()
 	stopProf()
-	r.Finish("a case is one candidate block judged by real code, Lean model, Lean spec and Go reference on a generated chain state (distinct = distinct block bytes), or one side-branch scenario (a stored side branch carrying one transaction that breaks / keeps one height-gated script rule overtakes the active chain; real code vs Go reference; distinct = distinct side-branch bytes), or one direct comparison of a sigop counter / GetBlockReward on a generated script / height (distinct = distinct input)",
+	r.Finish("a case is one candidate block judged by real code, Lean model, Lean spec and Go reference on a generated chain state (distinct = distinct block bytes; configurations: plain / pool hook installed / compressed records), or one block of a branch walk (a block tree with several re-organisations; real code's active chain and full UTXO dump vs the Go reference's per-node coin maps), or one side-branch scenario (a stored side branch carrying one transaction that breaks / keeps one height-gated script rule overtakes the active chain; real code vs Go reference; distinct = distinct side-branch bytes), or one direct comparison of a sigop counter / GetBlockReward on a generated script / height (distinct = distinct input)",
 		"C04: Lean model of commitTxs/CheckTransaction/sigop counters/UnspentGet tied to the real Chain.CheckBlock+AcceptBlock by differential runs on chainkit chains; property predicate = independent sequential ConnectBlock (Go) cross-checked against the Lean spec")
 }
 
